@@ -11,7 +11,7 @@ TRUSTED_EXTRA = ["Model/Interp.v models eval_library_definition, get_library and
 
 
 def explore(ctx):
-    n = 900 if ctx.quick else 20000
+    n = 3000 if ctx.quick else 20000
     cases = []
     dist = {"files": 0, "registered": 0}
     h = common.hexs
@@ -42,7 +42,9 @@ def explore(ctx):
         "disagreements": ndis,
         "rule": "random import graphs of 1-3 stateful libraries (exports with and without rename, an internal state variable, "
                 "an unexported helper, procedures that call procedures of the libraries they import, optionally a tick in the "
-                "body to count instantiations), supplied as files, as registered sources or mixed; importer programs import "
+                "body to count instantiations, optionally a definition of a name the library also imports - from (scheme base) or from "
+                "another library - exported under its own or another name; export / import / begin declarations in every order "
+                "that keeps imports before the body, exports and body possibly split over two declarations), supplied as files, as registered sources or mixed; importer programs import "
                 "them in random order (also twice in one declaration), call the exports, reference and (re)define names that "
                 "collide with the libraries' internals, redefine imported names and car; observables per form: value / error "
                 "kind, tick trace, and at the end the sorted bindings of the root frame. non-trivial = a program that calls a "
